@@ -35,15 +35,35 @@ theorem create_table_for_c_is_clean (tn : Py.Str) :
   rw [Proofs.GenParse.create_table_for_c_nf, Proofs.GenParse.cleanName_chars]
   rfl
 
+/-- **the order inside `_create_table`**: the CREATE TABLE statement comes before `read_pdb` — when it fails (an existing name:
+    OperationalError) that is the exception of the call, whatever the input is (unreadable, of an invalid type, without lines) -/
+theorem create_table_stmt_first (X : Ext) (db : Db) (pdb : Elem X.Data) (n : Py.Str) (e : Model.Err)
+    (h : X.create_stmt db n = .error e) : Rt.create_table X db pdb (.str n) = .error e := by
+  simp only [Rt.create_table, Rt.asName, ok_bind, h]
+  rfl
+
 theorem modelN_create (rt : Table → Table) (db : Db) (rows : Table) (n : Py.Str) :
     Rt.create_table (Ext.modelN rt) db (Elem.data (D := (Ext.modelN rt).Data) rows) (Elem.str (D := (Ext.modelN rt).Data) n) =
       Model.addNamedTable rt db n rows := by
   simp only [Rt.create_table, Rt.asName, Rt.readable, ok_bind]
+  unfold addNamedTable
+  by_cases h1 : (!MicroSql.isName (cleanTableName n)) = true
+  · simp only [h1, if_true]; rfl
+  · by_cases h2 : (findTab db (cleanTableName n)).isSome = true
+    · simp only [h1, h2, if_true, if_false]; rfl
+    · simp only [h1, h2, if_false, Bool.false_eq_true]
+      cases newTable rt (cleanTableName n) rows <;> rfl
 
 theorem modelN_init (rt : Table → Table) (rows : Table) (n : Py.Str) :
     Rt.pdb2sql_init (Ext.modelN rt) pdb2sql_init_tablename (Elem.data (D := (Ext.modelN rt).Data) rows)
         (some (Elem.str (D := (Ext.modelN rt).Data) n)) = Model.addNamedTable rt { tabs := [] } n rows := by
   simp only [Rt.pdb2sql_init, Option.getD_some, Rt.asName, Rt.readable, ok_bind]
+  unfold addNamedTable
+  by_cases h1 : (!MicroSql.isName (cleanTableName n)) = true
+  · simp only [h1, if_true]; rfl
+  · have h2 : (findTab { tabs := [] } (cleanTableName n)).isSome = false := rfl
+    simp only [h1, h2, if_false, Bool.false_eq_true]
+    cases newTable rt (cleanTableName n) rows <;> rfl
 
 theorem modelN_convert (rt : Table → Table) (src : Db) :
     convert_input (Ext.modelN rt) (Elem.obj (D := (Ext.modelN rt).Data) src) =
